@@ -4,6 +4,7 @@ package c17
 import (
 	"bytes"
 	"context"
+	"errors"
 
 	"github.com/0chain/common/core/util"
 
@@ -12,7 +13,112 @@ import (
 )
 
 var Harnesses = map[string]func(){
-	"H_Missing": H_Missing,
+	"H_Missing":     H_Missing,
+	"H_RepairFault": H_RepairFault,
+}
+
+// faultDB is the trie's store with one failing write: the failAt-th PutNode returns an error.
+type faultDB struct {
+	*util.MemoryNodeDB
+	failAt int
+	calls  int
+}
+
+var errWrite = errors.New("injected write fault")
+
+func (f *faultDB) PutNode(k util.Key, n util.Node) error {
+	i := f.calls
+	f.calls++
+	if i == f.failAt {
+		return errWrite
+	}
+	return f.MemoryNodeDB.PutNode(k, n)
+}
+
+// H_RepairFault: as H_Missing, but the repair is interrupted by a failing store write at a
+// chosen node (fault enumerated over every node the repair writes). The same trie object must
+// go on reporting exactly the nodes that are still absent; a second, fault-free repair completes.
+func H_RepairFault() {
+	seed := vp.Param("seed", 3)
+	version := vp.Int64("version")
+	db := util.NewMemoryNodeDB()
+	t := mptlib.NewTrie(db, version, nil)
+	ref := mptlib.NewRef()
+	mptlib.ApplySeed(t, ref, seed)
+	root := mptlib.Cp(t.GetRoot())
+	nodes := mptlib.Reachable(db, root)
+	m := len(nodes) - 1
+	mask := 1 + vp.Choose("mask", 1<<uint(m)-1)
+	donor := util.NewMemoryNodeDB()
+	nremoved := 0
+	for i := 1; i <= m; i++ {
+		if mask&(1<<uint(i-1)) != 0 {
+			donor.PutNode(nodes[i].Key, nodes[i].Node)
+			db.DeleteNode(nodes[i].Key)
+			nremoved++
+		}
+	}
+	fdb := &faultDB{MemoryNodeDB: db, failAt: vp.Choose("fail-at", nremoved)}
+	v2 := version
+	if vp.Param("same_version", 1) == 0 {
+		v2 = vp.Int64("version2")
+		vp.Assume(v2 != version)
+	}
+	t2 := mptlib.NewTrie(fdb, v2, root)
+	var err error
+	if vp.NoPanic("C17.nopanic", func() { err = t2.MergeDB(donor, root, nil) }) {
+		return
+	}
+	vp.Assert("C17.fault.repair-reports-the-error", err != nil)
+	// what is really absent now
+	present := make([]bool, len(nodes))
+	for i := range nodes {
+		_, gerr := db.GetNode(nodes[i].Key)
+		present[i] = gerr == nil
+	}
+	var frontier [][]byte
+	for i := 1; i <= m; i++ {
+		if present[i] {
+			continue
+		}
+		ok := true
+		for a := nodes[i].Parent; a >= 0; a = nodes[a].Parent {
+			if !present[a] {
+				ok = false
+			}
+		}
+		if ok {
+			frontier = append(frontier, nodes[i].Key)
+		}
+	}
+	vp.Assert("C17.fault.something-still-absent", len(frontier) > 0)
+	var hasMissing bool
+	var herr error
+	if vp.NoPanic("C17.nopanic", func() { hasMissing, herr = t2.HasMissingNodes(context.TODO()) }) {
+		return
+	}
+	vp.Assert("C17.fault.hasmissing-exact", herr == nil && hasMissing == (len(frontier) > 0))
+	var all []util.Key
+	if vp.NoPanic("C17.nopanic", func() { all, _ = t2.GetAllMissingNodes() }) {
+		return
+	}
+	vp.Assert("C17.fault.allmissing-count", len(all) == len(frontier))
+	for _, k := range all {
+		vp.Assert("C17.fault.allmissing-is-frontier", has(frontier, k))
+	}
+	// second repair without a fault
+	fdb.failAt = -1
+	if vp.NoPanic("C17.nopanic", func() { err = t2.MergeDB(donor, root, nil) }) {
+		return
+	}
+	vp.Assert("C17.fault.second-repair-ok", err == nil)
+	t3 := mptlib.NewTrie(db, v2, root)
+	vp.NoPanic("C17.nopanic", func() {
+		hm, e := t3.HasMissingNodes(context.TODO())
+		vp.Assert("C17.fault.repaired-complete", e == nil && !hm)
+		mptlib.CheckContent("C17.fault.repaired", t3, ref)
+	})
+	vp.Cover("C17.fault.done")
 }
 
 func has(set [][]byte, k []byte) bool {
